@@ -1,18 +1,22 @@
-(* The census of Go map-range loops that the model accounts for, with the reason each is harmless.
-   Properties/C14.v proves that the census regenerated from /repo on every run (Generated/MapLoops.v)
-   is exactly this list: a new, removed or changed loop breaks that obligation. *)
-From Coq Require Import String List.
+(* What makes a Go map-range loop harmless for C14.  The census of such loops is regenerated from /repo on every run
+   (harness/cmd/mapcensus -> Generated/MapLoops.v); the translator classifies what each loop body does:
+     "keyed"           the body writes entries of maps indexed by the loop's own key (Determinism.keyed_writes_perm);
+     "collect_sorted"  the body collects into a slice that is sorted later in the same function
+                       (Determinism.bidders_of_perm, sorted_desc_unique);
+   and lists the reasons a body is of neither shape (assignments to outer variables, early exits, bare call
+   statements) and every call that can reach the store, the bank or a listener.  Properties/C14.v proves that every
+   loop of the census is safe: at least one safe shape, no reason against, no call with an effect.  A loop may be
+   added, fused, split or renamed without breaking the obligation as long as it stays of a safe shape. *)
+From Coq Require Import String List Bool.
 Import ListNotations.
 Open Scope string_scope.
 
-Inductive shape :=
-| CollectThenSort     (* the body only appends the key to a slice that is sorted before use *)
-| KeyedWrites.        (* the body only writes entries of other maps, indexed by the loop's own key *)
+Definition loop_row : Type := string * string * string * nat * string * list string * list string * list string.
 
-Definition expected_map_loops : list ((string * string * string * nat * string * list string) * shape) := [
-  (("keeper", "auction.go", "AllocateSellingCoin", 0, "mInfo.AllocationMap", ["append"]), CollectThenSort);
-  (("keeper", "auction.go", "RefundPayingCoin", 0, "mInfo.RefundMap", ["append"]), CollectThenSort);
-  (("keeper", "match.go", "CalculateBatchAllocation", 0, "reservedAmtByBidder", ["ZeroInt"]), KeyedWrites);
-  (("keeper", "match.go", "CalculateBatchAllocation", 1, "matchRes.MatchResultByBidder", ["Sub"]), KeyedWrites);
-  (("types", "utils.go", "BidsByPrice", 0, "bidsByPrice", ["LegacyMustNewDecFromStr"]), CollectThenSort)
-].
+Definition safe_shape (s : string) : bool := String.eqb s "keyed" || String.eqb s "collect_sorted".
+
+Definition is_nil {A} (l : list A) : bool := match l with [] => true | _ => false end.
+
+Definition loop_safe (r : loop_row) : bool :=
+  let '(_, _, _, _, _, shapes, reasons, effects) := r in
+  negb (is_nil shapes) && forallb safe_shape shapes && is_nil reasons && is_nil effects.
